@@ -180,6 +180,15 @@ func runCheck(sp *spec, tier string, seed int64) int {
 		fmt.Printf("INCONCLUSIVE property=%s reference self-test failed: %v\n", sp.ID, err)
 		return 2
 	}
+	if only := os.Getenv("VERIF_ONLY_WL"); only != "" { // development aid: one workload of the property (never used by the registered commands)
+		var keep []wlSpec
+		for _, w := range sp.WLs {
+			if w.Name == only {
+				keep = append(keep, w)
+			}
+		}
+		sp.WLs = keep
+	}
 	bins := map[bool]string{}
 	for _, w := range sp.WLs {
 		if _, ok := bins[w.Race]; !ok {
